@@ -225,7 +225,10 @@ class _CFIProcedureTracker:
                         directive == ".cfi_endproc"
                         and procedure_start is not None
                     ):
-                        procedure_end = (idx, offset)
+                        # Code inserted at the offset of the .cfi_endproc
+                        # is placed before it (see split_block), so that
+                        # offset is still part of the procedure.
+                        procedure_end = (idx, offset + 1)
                         self._tree.addi(procedure_start, procedure_end)
 
     def in_procedure(self, block_idx: int, offset: int) -> bool:
